@@ -110,6 +110,38 @@ theorem loop_fuel_enough
       | retry b => simp only [bump_outcome]; exact ih fuel _ _ _ hinv' hrest (by omega)
       | reauth b => simp only [bump_outcome]; exact ih fuel _ _ _ hinv' hrest (by omega)
 
+/-- once the plan is exhausted the next attempt succeeds: never more attempts than faults plus one -/
+theorem loop_attempts_le
+    (hatt : AttSpec att Inv Good ErrOk Allowed)
+    (hnone : ∀ st, Inv st → (att none st).err = none) :
+    ∀ (plan : List Fault) (fuel tries rounds : Nat) (st : σ), Inv st → (∀ x ∈ plan, Allowed x) →
+      (loop att pol vis fuel tries rounds plan st).attempts ≤ plan.length + 1 := by
+  intro plan
+  induction plan with
+  | nil =>
+    intro fuel tries rounds st hinv _
+    cases fuel with
+    | zero => simp [loop]
+    | succ fuel =>
+      rw [loop_succ]
+      simp only [List.head?_nil, hnone st hinv]
+      simp
+  | cons x rest ih =>
+    intro fuel tries rounds st hinv hall
+    cases fuel with
+    | zero => simp [loop]
+    | succ fuel =>
+      rw [loop_succ]
+      simp only [List.head?_cons, List.tail_cons, List.length_cons]
+      have hrest : ∀ y ∈ rest, Allowed y := fun y hy => hall y (by simp [hy])
+      rcases hatt (some x) st hinv (by intro y h; cases h; exact hall x (by simp)) with ⟨h1, _⟩ | ⟨e, h1, _, hinv'⟩
+      · simp only [h1]; omega
+      · simp only [h1]
+        cases hp : pol e tries rounds with
+        | raise e' s => simp only; omega
+        | retry b => simp only [bump_attempts]; have := ih fuel (tries + 1) rounds _ hinv' hrest; omega
+        | reauth b => simp only [bump_attempts]; have := ih fuel 1 (rounds + 1) _ hinv' hrest; omega
+
 /-- the final state is the one a failed attempt restores or the one a successful attempt establishes -/
 theorem loop_final
     (hatt : AttSpec att Inv Good ErrOk Allowed) :
